@@ -477,6 +477,21 @@ impl SecurityPlugins {
   }
 }
 
+#[cfg(rustdds_verif)]
+impl SecurityPlugins {
+  /// Verification hook: enter the identity and permissions handles of a
+  /// participant without running the authentication and access control plugins.
+  pub(crate) fn verif_set_handles(
+    &mut self,
+    guidp: GuidPrefix,
+    identity: IdentityHandle,
+    permissions: PermissionsHandle,
+  ) {
+    self.identity_handle_cache.insert(guidp, identity);
+    self.permissions_handle_cache.insert(guidp, permissions);
+  }
+}
+
 /// Interface for using the Access control plugin
 impl SecurityPlugins {
   pub fn validate_local_permissions(
